@@ -1,11 +1,44 @@
-//! C08: not built yet
+//! C08: persistent sessions resume (S4)
+use super::s4common::{self, Plan};
 use super::{Meta, Prop};
 use crate::common::{Ctx, Stats};
+#[allow(unused_imports)]
+use crate::sub::s4drive::{base_profile, Stepping, Weights};
+#[allow(unused_imports)]
+use rumqttd::Strategy;
 
-fn run(_ctx: &Ctx) -> Stats {
-    let mut s = Stats::default();
-    s.inconclusive.push("check not built yet".into());
-    s
+pub fn plan() -> Plan {
+    let mut p = base_profile("c08-persistent");
+    p.persistent_pm = 800;
+    p.w.link_drop = 6;
+    p.w.disconnect_pkt = 4;
+    p.w.takeover = 3;
+    p.w.connect = 12;
+    p.w.unsubscribe = 1;
+    p.qos_weights = [2, 4, 2];
+    p.ops = (40, 160);
+    let mut single = p.clone();
+    single.name = "c08-single";
+    single.stepping = Stepping::Single;
+    let mut hostile = p.clone();
+    hostile.name = "c08-router-close";
+    hostile.hostile = true;
+    hostile.w.bad = 4;
+    let profiles = vec![p, single, hostile];
+    Plan {
+        profiles,
+        directed: vec![],
+        quick_histories: 400,
+        thorough_histories: 60000,
+    }
+}
+
+fn run(ctx: &Ctx) -> Stats {
+    s4common::run(ctx, &plan())
+}
+
+fn replay(ctx: &Ctx, doc: &serde_json::Value) -> Stats {
+    s4common::replay(ctx, &plan(), doc)
 }
 
 pub fn prop() -> Prop {
@@ -13,11 +46,11 @@ pub fn prop() -> Prop {
         id: "C08",
         meta: Meta {
             level: "exploration",
-            rule: "not built",
-            assumptions: &[],
-            floors: &[],
+            rule: "seeded histories in which most clients use persistent sessions and end them in every flavour (DISCONNECT, link drop, router-initiated close after a bad ack, take-over) at random points with forwarded-but-unacknowledged messages outstanding, others publishing meanwhile, 1-4 reconnect cycles with alternating clean flags; M-broker restarts each subscription's expected stream at its oldest unacknowledged QoS>0 element. A case counts as distinct and non-trivial when its sequence of operation kinds is new and it reached at least one named corner state.",
+            assumptions: &["router stepped on one thread through verif hooks; link actors use the real LinkTx/LinkRx", "default segment sizes: backlog stays within retention"],
+            floors: &[("quiescent-point", 20), ("resume-session-present", 20)],
         },
         run,
-        replay: None,
+        replay: Some(replay),
     }
 }
